@@ -185,6 +185,12 @@ func (sw *SessionWindow) Add(data any) {
 		}
 		if sw.watermark != nil {
 			sw.watermark.UpdateEventTime(timestamp)
+			if sw.watermark.isFarFuture(timestamp) {
+				// Corrupt far-future timestamp: the watermark ignores it, and it must
+				// not extend the key's open session either (the session's end would
+				// move out of reach of any watermark and its rows would never be reported).
+				return
+			}
 			if sw.watermark.IsEventTimeLate(timestamp) {
 				allowedLateness := sw.config.AllowedLateness
 				if allowedLateness > 0 {
